@@ -199,6 +199,10 @@ func (e *Env) post(o *Outcome, post []string) {
 		e.mu.Unlock()
 	}()
 	for _, name := range post {
+		// "f!" : the host calls f and, when what comes back is a function, calls that twice as well
+		// "f?" : the host calls f with one argument too many (refused before f is entered)
+		chain, surplus := strings.HasSuffix(name, "!"), strings.HasSuffix(name, "?")
+		name = strings.TrimRight(name, "!?")
 		obj, err := o.VM.Get(name)
 		if err != nil {
 			e.logLine("#host get error " + err.Error())
@@ -213,12 +217,38 @@ func (e *Env) post(o *Outcome, post []string) {
 		if len(fn.Parameters()) > 0 {
 			args = []object.Object{object.NewInt(0)}
 		}
+		if surplus {
+			args = append(args, object.NewInt(0), object.NewInt(0))
+			if _, err := o.VM.Call(context.Background(), fn, args); err != nil {
+				e.logLine("#host refused")
+			} else {
+				e.logLine("#host surplus arguments accepted")
+			}
+			continue
+		}
 		res, err := o.VM.Call(context.Background(), fn, args)
 		if err != nil {
 			cls, _ := Classify(err.Error())
 			e.logLine("#host error " + cls)
+		} else if _, isFn := res.(*object.Function); isFn {
+			e.logLine("#host function")
 		} else {
 			e.logLine("#host " + safeInspect(res))
+		}
+		if inner, ok := res.(*object.Function); ok && chain && err == nil {
+			for k := 0; k < 2; k++ {
+				var a2 []object.Object
+				if len(inner.Parameters()) > 0 {
+					a2 = []object.Object{object.NewInt(0)}
+				}
+				r2, err := o.VM.Call(context.Background(), inner, a2)
+				if err != nil {
+					cls, _ := Classify(err.Error())
+					e.logLine("#host error " + cls)
+				} else {
+					e.logLine("#host " + safeInspect(r2))
+				}
+			}
 		}
 	}
 }
